@@ -260,6 +260,7 @@ fn run_shard(
     tape_min: usize,
     tape_max: usize,
     known_keys: &BTreeSet<String>,
+    shrink_iters: u32,
 ) -> (Stats, Option<Failure>) {
     let mut exec = Exec::new(id, factory, tier, use_worker);
     let mut stats = Stats::default();
@@ -312,8 +313,8 @@ fn run_shard(
             seed.wrapping_mul(0x9E3779B97F4A7C15)
                 .wrapping_add((shard as u64 + 1).wrapping_mul(0xD1B54A32D192ED03)),
         ),
-        max_shrink_iters: 4000,
-        max_shrink_time: 0,
+        max_shrink_iters: shrink_iters,
+        max_shrink_time: 45_000,
         verbose: 0,
         ..Config::default()
     };
@@ -435,6 +436,16 @@ pub fn run_check(id: &'static str, factory: Factory, cfg: RunConfig) -> i32 {
         let mut exec = Exec::new(id, factory, cfg.tier, use_worker);
         return match exec.run(&c) {
             Ok(o) => {
+                if std::env::var("VERIF_REWRITE_PORTABLE").is_ok() {
+                    if let Some(p) = &o.portable {
+                        let mut j2 = j.clone();
+                        j2["generated_from"] = j["case"].clone();
+                        j2["case"] = CaseRef::Text(p.clone()).to_json();
+                        j2["rendered"] = J::String(o.rendered.clone());
+                        let _ = std::fs::write(path, serde_json::to_string_pretty(&j2).unwrap() + "\n");
+                        println!("rewrote {} with a portable case", path.display());
+                    }
+                }
                 println!("case:\n{}", o.rendered);
                 match &o.verdict {
                     Verdict::Fail { sig, msg } => {
@@ -553,6 +564,7 @@ pub fn run_check(id: &'static str, factory: Factory, cfg: RunConfig) -> i32 {
     let level = proto.level();
     let floors = proto.vacuity_floor();
     let exhaustive = proto.fixed_exhaustive();
+    let shrink_iters = proto.shrink_iters();
     let extra = proto.extra();
     drop(proto);
 
@@ -575,7 +587,7 @@ pub fn run_check(id: &'static str, factory: Factory, cfg: RunConfig) -> i32 {
                         .spawn_scoped(s, move || {
                             run_shard(
                                 id, factory, tier, use_worker, shard, nshards, seed, fixed, n,
-                                tmin, tmax, kk,
+                                tmin, tmax, kk, shrink_iters,
                             )
                         })
                         .unwrap(),
@@ -722,10 +734,15 @@ fn write_replay(root: &PathBuf, id: &str, seed: u64, n: usize, c: &CaseRef, o: &
         Verdict::Fail { sig, msg } => (sig.clone(), msg.clone()),
         _ => (String::new(), String::new()),
     };
+    let case = match &o.portable {
+        Some(t) => CaseRef::Text(t.clone()).to_json(),
+        None => c.to_json(),
+    };
     let j = json!({
         "property": id,
         "seed": seed,
-        "case": c.to_json(),
+        "case": case,
+        "generated_from": c.to_json(),
         "signature": sig,
         "explanation": msg,
         "rendered": o.rendered,
